@@ -119,7 +119,7 @@ def run_cases(ctx, cases, closure=True, check_inputs=True, extra_check=None, on_
                 else:
                     ctx.inconc('no result for %s (%s %s)' % (j.id, kind, detail[:200]))
                 continue
-            ctx.evaluations += max(1, len(jr.reps))
+            ctx.evaluations += max(1, len(jr.reps), jr.stats.get('reps', 0) if jr.stats else 0)
             if jr.panics:
                 witness['summary'] = 'panicked: %s' % jr.panics[0]
                 facts.update({'kind': 'panic', 'message': jr.panics[0]})
